@@ -115,6 +115,51 @@ Definition ec_edit_own (force : bool) (bufs : list ebuf) : list ebuf * bool :=
        end.
 
 (* ------------------------------------------------------------------------------------------ *)
+(* ec_write and the buffer's NAME (fix 268c549).  bufs[0].path is "" for the buffer of an editor started without a file name
+   (nname = None).  The target of a write is the own path (no argument), a path, or a pipe (argument "!cmd").
+     path[0] == '!'  : cmd_pipe; then `if (!ex_path()[0] && path[0] != '!')` does NOT adopt the pipe as a name, and
+                       strcmp(ex_path(), "!cmd") != 0: neither lbuf_saved nor lbuf_unsaved nor the mtime -- nothing changes
+     no argument     : the own path; for the unnamed buffer lbuf_save("") fails ("write failed"), return 1
+     a path          : the unnamed buffer adopts it, and then -- as for a buffer that already has this name -- the own-path
+                       tail write_own; any other path: a write elsewhere, nothing changes
+   (paths are numbers as in DirtyIoDefs; a FILE whose name starts with `!` cannot be written to by name and is not modelled) *)
+Inductive wtarget := WOwn | WPath (p : nat) | WPipe.
+Record nbuf := { nb : ebuf; nname : option nat }.
+Definition ec_write_named (t : wtarget) (b en : nat) (f : nbuf) : nbuf * bool :=     (* (bufs[0], the command failed) *)
+  match t with
+  | WPipe => (f, false)
+  | WOwn => match nname f with
+            | None => (f, true)
+            | Some p => ({| nb := write_own (nb f) b en; nname := Some p |}, false)
+            end
+  | WPath p => match nname f with
+               | None => ({| nb := write_own (nb f) b en; nname := Some p |}, false)
+               | Some q => if Nat.eqb p q then ({| nb := write_own (nb f) b en; nname := Some q |}, false) else (f, false)
+               end
+  end.
+
+(* histories with names: the operations that do not involve a file (edits, command boundaries, undo, redo) and writes by target;
+   a reload (:e!) needs a file: it is an operation of a buffer that has a name *)
+Inductive nop :=
+| NEdit (buf : option (list N)) (b e : nat) | NBump | NUndo | NRedo
+| NReload (content : list N)
+| NWrite (t : wtarget) (b e : nat).
+Definition nrun_op (f : nbuf) (o : nop) : nbuf :=
+  let lift d := {| nb := run_dop (nb f) d; nname := nname f |} in
+  match o with
+  | NEdit buf b e => lift (DEdit buf b e)
+  | NBump => lift DBump
+  | NUndo => lift DUndo
+  | NRedo => lift DRedo
+  | NReload c => match nname f with Some _ => lift (DReload c) | None => f end
+  | NWrite t b e => fst (ec_write_named t b e f)
+  end.
+Fixpoint nrun (f : nbuf) (ops : list nop) : nbuf :=
+  match ops with [] => f | o :: r => nrun (nrun_op f o) r end.
+Definition nbuf_new : nbuf := {| nb := ebuf_new; nname := None |}.
+Definition nbuf_open (c : list N) (p : nat) : nbuf := {| nb := ebuf_open c; nname := Some p |}.
+
+(* ------------------------------------------------------------------------------------------ *)
 (* the table as it is in ex.c: struct buf bufs[NBUFS] (NBUFS generated from ex.c), slot i occupied iff bufs[i].lb != NULL.
    ec_quit: for (i = 0; i < LEN(bufs); i++) if (bufs[i].lb) ...  -- EVERY slot is visited, the empty ones are skipped. *)
 Definition NSLOTS : nat := Z.to_nat NBUFS.
